@@ -546,6 +546,10 @@ func (in *Interp) intrinsic(fn *ssa.Function, args []Value, site *ssa.Call) (Val
 		if tw.IsConst() && te.IsConst() && d.IsConst() {
 			return nil, false
 		}
+		if d.IsConst() && d.Val == 0 {
+			// t.Add(0) == t (wall-clock instants without monotonic reading)
+			return in.copyVal(t), true
+		}
 		top := ts.Const(64, 1<<63)
 		in.must(ts.Eq(ts.BvAnd(tw, top), ts.Const(64, 0)), "time model: instant with monotonic reading (unsupported)")
 		in.stub("time.Time.Add on symbolic wall-clock instants: defining linear constraint, |d| < 2^62 assumed")
